@@ -75,11 +75,12 @@ def run(ctx, anchors=None):
              "the session stepper does not advance opcode_pos after a successful operation (EvalScript does at %s): OP_CODESEPARATOR records codeseparator_pos = %s for every separator, so BIP342 signatures are rejected"
              % (evals.loc(ref_inc[0]), "0" if not incs else "a wrong position"))
     sal = astq.aliases(stepper)
-    switches = [n for n in stepper.nodes() if n["k"] == "opcall" and n["op"] == "=" and any(p[1:] == ("script",) for p in astq.paths(n["args"][0], sal))]
-    resets = [n for n in stepper.nodes() if n["k"] == "assign" and astq.estr(n["lhs"]).endswith("opcode_pos") and astq.const_value(n["rhs"]) == 0]
+    from . import common
+    switches = common.script_switches(prog, stepper)
+    resets = [n for n in common.field_writers(prog, stepper, "opcode_pos") if not (n.get("k") == "un")]
     for swn in switches:
         ctx.site()
-        ctx.inst(bool(resets) and scfg.must_pass_after(swn, resets), "R02.1", "opcode_pos-restarts:" + astq.estr(swn)[:40], stepper.loc(swn),
+        ctx.inst((swn in resets) or (bool(resets) and scfg.must_pass_after(swn, resets)), "R02.1", "opcode_pos-restarts:" + astq.estr(swn)[:40], stepper.loc(swn),
                  "opcode_pos restarts at 0 for the next script", "after the script switch `%s` opcode_pos keeps counting from the previous script" % astq.estr(swn))
     # the separator records opcode_pos
     seps = [n for n in opstep.nodes() if n["k"] == "assign" and astq.estr(n["lhs"]).endswith("m_codeseparator_pos")]
